@@ -14,12 +14,15 @@ import (
 	"net/http"
 	"sort"
 	"strings"
+	"sync"
 	"time"
 
 	"github.com/dadrus/heimdall/internal/cache"
 	"github.com/dadrus/heimdall/internal/config"
 	"github.com/dadrus/heimdall/internal/heimdall"
 	"github.com/dadrus/heimdall/internal/httpcache"
+	"github.com/dadrus/heimdall/internal/rules/mechanisms"
+	"github.com/dadrus/heimdall/internal/rules/mechanisms/finalizers"
 	"github.com/dadrus/heimdall/internal/rules/mechanisms/subject"
 	"github.com/dadrus/heimdall/verifharness/c10"
 )
@@ -68,6 +71,14 @@ func strs(l ...string) []any {
 func hdrs(n int) []kv {
 	var l []kv
 	for i := 1; i <= n; i++ {
+		if i == 3 {
+			// a name that differs from the first one only in case (as a lower-case `accept` next to a
+			// default `Accept`), with the same value: the request is the same in whatever order they are set
+			l = append(l, kv{"x-h1", "h1"})
+
+			continue
+		}
+
 		l = append(l, kv{fmt.Sprintf("X-H%d", i), fmt.Sprintf("h%d", i)})
 	}
 
@@ -509,8 +520,15 @@ func jwtJWK(p Pair, side int, base string, km *JWKMaterial) (evalFn, error) {
 
 // ---------------------------------------------------------------- jwt finalizer
 
-func jwtFinalizer(p Pair, side int, keyStore string) (evalFn, error) {
+func jwtFinalizer(p Pair, side int, keyStore, keyStore2 string) (evalFn, error) {
 	kid, name, subID, role, out := "k1", "issA", "u1", "r1", "o1"
+
+	// signer_first_key: no key_id is configured on either side; the key stores differ in their first
+	// entry, so the key in use differs although the configuration of the signer reads the same
+	noKid := p.Comp == "signer_first_key"
+	if noKid && side == 2 {
+		keyStore = keyStore2
+	}
 
 	var rule config.MechanismConfig
 
@@ -540,7 +558,7 @@ func jwtFinalizer(p Pair, side int, keyStore string) (evalFn, error) {
 
 	f, err := c10.NewFactory(&config.MechanismPrototypes{Finalizers: []config.Mechanism{{
 		ID: "m", Type: "jwt", Config: config.MechanismConfig{
-			"signer": map[string]any{"name": name, "key_id": kid, "key_store": map[string]any{"path": keyStore}},
+			"signer": signerConf(name, kid, keyStore, noKid),
 			"ttl":    "30s",
 			"claims": `{"c":"base","o":{{ .Outputs | toJson }},"r":{{ .Subject.Attributes | toJson }}}`,
 		},
@@ -578,6 +596,20 @@ func jwtFinalizer(p Pair, side int, keyStore string) (evalFn, error) {
 		return fmt.Sprintf("ok kid=%v claims=%s life=%d", hdr["kid"], jsonOf(claims), int64(exp-iat))
 	}, nil
 }
+
+func signerConf(name, kid, keyStore string, noKid bool) map[string]any {
+	c := map[string]any{"name": name, "key_store": map[string]any{"path": keyStore}}
+	if !noKid {
+		c["key_id"] = kid
+	}
+
+	return c
+}
+
+// lateShared carries, per repetition of a pair, the mechanism factory of the first side to the second
+// one: the variant of the second side is created from the SAME prototype, after the first side has
+// been executed (a rule set loaded later).
+var lateShared sync.Map //nolint:gochecknoglobals
 
 // ---------------------------------------------------------------- client credentials
 
@@ -626,12 +658,42 @@ func clientCredentials(p Pair, side int, base string, strategy bool, sc *c10.Scr
 		cc["scopes"] = strs(scopes...)
 	}
 
+	if !strategy && p.Comp == "scopes_late" && side == 2 {
+		// created lazily from the first side's factory, with a rule-level scopes override
+		var m finalizers.Finalizer
+
+		return func(cch cache.Cache) string {
+			if m == nil {
+				f, ok := lateShared.LoadAndDelete(sc)
+				if !ok {
+					return "error: first side not built"
+				}
+
+				var err error
+				if m, err = f.(mechanisms.MechanismFactory).CreateFinalizer("", "m", config.MechanismConfig{"scopes": strs("s9")}); err != nil { //nolint:forcetypeassert
+					return classify(err)
+				}
+			}
+
+			ctx := c10.NewCtx(cch, nil, nil)
+			if err := m.Execute(ctx, &subject.Subject{ID: "u1"}); err != nil {
+				return classify(err)
+			}
+
+			return "ok authorization=" + ctx.Up.Get("Authorization")
+		}, nil
+	}
+
 	if !strategy {
 		f, err := c10.NewFactory(&config.MechanismPrototypes{Finalizers: []config.Mechanism{{
 			ID: "m", Type: "oauth2_client_credentials", Config: cc,
 		}}})
 		if err != nil {
 			return nil, err
+		}
+
+		if p.Comp == "scopes_late" {
+			lateShared.Store(sc, f)
 		}
 
 		m, err := f.CreateFinalizer("", "m", nil)
